@@ -3,7 +3,7 @@
  "name": "rsz_ss2_clear",
  "props": ["C08", "C20"],
  "level": "U",
- "tier": "wip",
+ "tier": "quick",
  "harness": "h_ss2_clear",
  "includes": ["resize"],
  "unwind": 12,
